@@ -265,8 +265,8 @@ func c13Random(c *fw.Ctx, idx int) {
 	g := []int64{3, 5, 17, 1000, 1 << 20}[r.Intn(5)]
 	rp := func() ipt { return ipt{int64(r.Intn(int(g))), int64(r.Intn(int(g)))} }
 	pts := make([]ipt, 0, n)
-	kind := r.Intn(8)
-	names := []string{"coincident", "two-values", "collinear-axis", "collinear-general", "circle", "clustered", "uniform", "few-extremes"}
+	kind := r.Intn(10)
+	names := []string{"coincident", "two-values", "collinear-axis", "collinear-general", "circle", "clustered", "uniform", "few-extremes", "octagon-degenerate", "octagon-degenerate"}
 	switch kind {
 	case 0:
 		p := rp()
@@ -325,6 +325,40 @@ func c13Random(c *fw.Ctx, idx int) {
 	case 6:
 		for i := 0; i < n; i++ {
 			pts = append(pts, rp())
+		}
+	case 8, 9:
+		// point sets whose eight extreme-direction points (min/max of x, y, x+y,
+		// x-y) collapse onto two or three input points although the set spans
+		// the plane: two opposite corners of the bounding box are input points
+		// and every other point lies in the band between the two diagonals
+		// through them; mirrored and transposed at random
+		w := int64(r.Range(1, 40)) * (g/40 + 1)
+		h := w * int64(r.Range(2, 12))
+		corners := []ipt{{0, h}, {w, 0}}
+		if kind == 9 && r.Bool() {
+			corners = append(corners, ipt{w, h - w}) // a third extreme on the band's edge
+		}
+		pts = append(pts, corners...)
+		for len(pts) < n {
+			x := int64(r.Intn(int(w) + 1))
+			lo, hi := w-x, h-x // w <= x+y <= h
+			if hi < lo {
+				continue
+			}
+			y := lo + int64(r.Intn(int(hi-lo)+1))
+			pts = append(pts, ipt{x, y})
+		}
+		fx, fy, tr := r.Bool(), r.Bool(), r.Bool()
+		for i := range pts {
+			if fx {
+				pts[i].x = -pts[i].x
+			}
+			if fy {
+				pts[i].y = -pts[i].y
+			}
+			if tr {
+				pts[i].x, pts[i].y = pts[i].y, pts[i].x
+			}
 		}
 	default:
 		// a few far extremes plus a dense interior: exercises the interior-point reduction
